@@ -38,6 +38,8 @@ FAILS = {
 }
 M = ps.Menu
 INNER = M('c12', ('S', 'FAIL'), ('if', 'ifelse', 'while', 'for', 'with', 'tryfin'), vars_=(), ret=(None,))
+# the failing statement sits in a local function of the innermost callee (its frame must be reported under its own name)
+NESTED = M('c12n', ('S', 'FAIL', 'CALLG'), ('if', 'for', 'def'), vars_=(), ret=(None,))
 CHAIN_KINDS = ('conv', 'dnc', 'lam', 'deco', 'wraps')
 NEST = ('plain', 'if', 'for')
 _S = {'tier': 'quick'}
@@ -63,6 +65,22 @@ def skeletons(maxn):
     for b in ps.blocks(n, INNER):
       if count_fail(b) == 1:
         yield b
+  for n in range(3, maxn + 2):
+    for b in ps.blocks(n, NESTED):
+      # local function first, holding the failing statement, and called afterwards
+      if (count_fail(b) == 1 and b[0][0] == 'def' and count_fail(b[:1]) == 1 and ps.contains_kind(b[1:], ('CALLG',)) is not None and
+          c01_has(b[1:], 'CALLG') and not c01_has(b[:1], 'CALLG') and sum(1 for s in b if s[0] == 'def') == 1 and not c01_has(b[1:], 'def')):
+        yield b
+
+
+def c01_has(body, kind):
+  for st in body:
+    if st[0] == kind:
+      return True
+    for part in st[1:]:
+      if isinstance(part, tuple) and part and isinstance(part[0], tuple) and c01_has(part, kind):
+        return True
+  return False
 
 
 def chains(maxlen):
